@@ -20,7 +20,7 @@ LimitSyntaxes == {"radians", "xacro-degrees", "absent", "mixed"}
 Orders == {"natural", "reversed", "shuffled"}
 Nestings == {0, 1, 2}
 Namings == {"plain", "prefix-upper", "underscore", "kuka-a", "literal-prefix-a", "literal-prefix", "unicode-prefix", "explicit"}
-Copies == {"single", "identical-duplicate", "second-robot"}
+Copies == {"single", "identical-duplicate", "duplicate-other-prefix", "second-robot"}
 
 VARIABLES lay, syn, stage
 vars == <<lay, syn, stage>>
